@@ -27,13 +27,47 @@ XML_QUERIES = ['redact("a.xml().r.b")', 'a.xml().r.b == "1" and redact("a.xml().
                'a.xml().r.c == "x y" and redact("a.xml().r.c")']
 
 
+def deep_canon(text):
+    """canonical form of a record in which the documents nested in string fields (JSON, or base64 of JSON: what a redaction
+    through .json() parses and re-encodes, with the members of its objects in Go's map order) are canonical as well"""
+    import base64
+
+    def walk(v):
+        if isinstance(v, dict):
+            return {k: walk(x) for k, x in v.items()}
+        if isinstance(v, list):
+            return [walk(x) for x in v]
+        if isinstance(v, str) and len(v) >= 2:
+            t = v
+            wrapped = False
+            if not t.lstrip().startswith(("{", "[")):
+                try:
+                    t = base64.b64decode(v, validate=True).decode("utf-8")
+                    wrapped = True
+                except Exception:
+                    return v
+            if t.lstrip().startswith(("{", "[")):
+                try:
+                    return {"\u0000nested-document": walk(json.loads(t)), "\u0000base64": wrapped}
+                except (ValueError, RecursionError):
+                    return v
+        return v
+    try:
+        return json.dumps(walk(json.loads(text)), sort_keys=True)
+    except (ValueError, RecursionError):
+        return None
+
+
 def same(a, b):
     if a["c"] != b["c"] or a["t"] != b["t"]:
         return False
     if a["r"] == b["r"]:
         return True
     ca, cb = kfl.canon_json(kfl.unhx(a["r"])), kfl.canon_json(kfl.unhx(b["r"]))
-    return ca is not None and ca == cb
+    if ca is not None and ca == cb:
+        return True
+    da, db = deep_canon(kfl.unhx(a["r"])), deep_canon(kfl.unhx(b["r"]))
+    return da is not None and da == db
 
 
 def nondeterministic(ctx, query, records, times=96):
@@ -92,6 +126,19 @@ def run(ctx):
     for t in XML_QUERIES:
         for _ in range(3 if quick else 20):
             xml_lines.append([t] + [json.dumps({"a": rng.choice(XML_DOCS), "b": rng.choice(XML_DOCS), "c": rng.randint(0, 9)}) for _ in range(8)])
+    # a nested JSON document that is filtered on and then redacted (selector and redaction through the same hop), over
+    # records that carry the SAME embedded text several times in a row and in different records
+    jdocs = ['{"b":"s1","k":1}', '{"b":"s2","k":2}', '{"b":"s1","c":{"d":7}}', '{"c":{"d":7},"b":"s3"}', 'eyJiIjoiczEiLCJrIjoxfQ==', '{"b":"s1","k":1}']
+    jqueries = ['(a.json().b == "s1") and redact("a.json().b")', 'a.json().b == "s1" and redact("a.json().b")',
+                '(a.json().c.d == 7) and redact("a.json().c")', '(a.json().b == "s1") and (b.json().b == "s1") and redact("a.json().b", "b.json().b")',
+                '(a.json().k == 1) and redact("a.json().k") and (a.json().k == 1)', 'redact("a.json().b") and (a.json().b == "s1")']
+    for t in jqueries:
+        for _ in range(3 if quick else 20):
+            docs = [rng.choice(jdocs) for _ in range(8)]
+            if rng.random() < 0.7:
+                docs[1] = docs[0]
+                docs[5] = docs[4]
+            xml_lines.append([t] + [json.dumps({"a": d, "b": rng.choice(jdocs), "c": rng.randint(0, 3)}) for d in docs])
     ill = kfl.illtyped_queries(rng, "quick")
     for t in rng.sample(ill, 30 if quick else 600):
         chosen.append((t, [], [[('k', 'a')]]))
